@@ -127,7 +127,8 @@ def add_run_stats(st, run, an, windows, label):
     st['strategies'][label] = st['strategies'].get(label, 0) + 1
     dg = pr.sync_digest(sim)
     nontrivial = bool(sim.fault_counts) or any(
-        sim.probes.get(k) for k in ('early_pass', 'late_waiter', 'stale_arrival')) or \
+        sim.probes.get(k) for k in ('early_pass', 'late_waiter', 'stale_arrival',
+                                     'rearrival_before_drain')) or \
         nc.get('chunk', 'whole') != 'whole' or nc.get('latency', 'const') != 'const'
     st['digests'][dg] = st['digests'].get(dg, False) or nontrivial
     for w in windows:
